@@ -156,6 +156,14 @@ func C20(run *Run) {
 						e.Ctx, e.Ctxt = normCtx(e.Ctx), []Tuple{}
 					}
 					ev = e
+					if strings.Contains(e.Eng, ":v2") && !hung {
+						// the weighted-graph engine is judged as in C03 (known deviations are classified there)
+						v1 := &CheckEv{Eng: "v1:default", O: q.O, R: q.R, U: q.U, Ctx: q.Ctx}
+						v.Base.RunCheck(bg, v1, ts, mg)
+						vev := &V2Ev{CheckEv: *e}
+						fillV2(vev, v1, cs, ts, q)
+						ev = vev
+					}
 				case kind == "batch":
 					env := v.Base
 					req := &openfgav1.BatchCheckRequest{StoreId: env.StoreID, AuthorizationModelId: env.ModelID}
